@@ -499,16 +499,16 @@ func genNode(g *vlib.Rng, size int) *NodeBlock {
 
 func nodeStreams(g *vlib.Rng) {
 	// (the signer is the expensive part, a round in the node is cheap: fewer blocks, more rounds)
-	for i := 0; i < r.N(24, 240); i++ {
+	for i := 0; i < r.N(24, 120); i++ {
 		runNode(genNode(g, 0), r.N(12, 24))
 	}
-	for i := 0; i < r.N(16, 160); i++ {
+	for i := 0; i < r.N(16, 80); i++ {
 		runNode(genNode(g, 1), r.N(12, 24))
 	}
-	for i := 0; i < r.N(8, 60); i++ {
+	for i := 0; i < r.N(8, 40); i++ {
 		runNode(genNode(g, 2), r.N(12, 24))
 	}
-	for i := 0; i < r.N(2, 12); i++ {
+	for i := 0; i < r.N(2, 8); i++ {
 		runNode(genNode(g, 3), r.N(8, 16))
 	}
 }
